@@ -15,7 +15,10 @@ RULE = ("cases: real LevyProcess / MarkovChainProcess / CouplingMarkovChain (lev
         "sorted dyadic jump-time offsets, dyadic jump sizes / sampled states, tagged dyadic normals and scripted coupling states; "
         "1-5 product dates, fixed dates / jump times / jump times with max_step_epsilon (eps below, equal to and above the "
         "maturity); build_finer_grid (both copies) directly on arbitrary dyadic arrays (1-d, d x n, fine+coarse; also unsorted "
-        "and zero first time); non-trivial = path with >= 1 jump and >= 2 intervals or an inserted point")
+        "and zero first time); d-dimensional (d = 2, 3) MarkovChainLevyCopula / CouplingProcessLevyCopula objects through simulate_one_path / "
+        "simulate_one_path_with_coupling against Model/PathsNd.v (whole (d, n) and (2, d, n) arrays, matrix diffusion), 1-4 product intervals with "
+        "non-ragged ([2,2], [3,3,3]), ragged and empty-interval jump counts, real jump_times_from_nb_of_jumps on scripted dyadic uniforms, real "
+        "TimeGrid, real or scripted __coupling_state; non-trivial = path with >= 1 jump and >= 2 intervals or an inserted point")
 MODELLED = ["SimulationFixedTimes / SimulationWithJumpTimes / SimulationMaximumStep and their Markov-chain and coupled (1-d) "
             "subclasses: assembly of the path from the consumed variates (hand model Model/Paths.v), tied by vm_compute "
             "correspondence through the public simulate_one_path entry points",
@@ -25,12 +28,33 @@ MODELLED = ["SimulationFixedTimes / SimulationWithJumpTimes / SimulationMaximumS
             "state sampler, np.random.normal, CouplingSimulation.coupling_state (C03 is about its law)",
             "MarkovChainLevyCopula (2-d) is driven through simulate_one_path and compared component by component with the 1-d chain model; "
             "CouplingProcessLevyCopula (2-d, level 1) likewise, fine and coarse component by component against the 1-d coupled model "
-            "(its private __coupling_state is scripted)"]
+            "(its private __coupling_state is scripted)",
+            "wave 5 - Model/PathsNd.v, d-dimensional hand model (columns of d-vectors) of markovchainlevycopula.py MCLevyCopulaSimulation"
+            "{FixedTimes.project/simulate_one_path, WithJumpTimes.simulate_markov_chain/simulate_jumps/simulate_one_path, MaximumStep.simulate_jumps}, "
+            "helper_simulate_levy_copula_markov_chain, helper_simulate_diffusion_part (diffusion_matrix @ normals; the matrix itself - scipy sqrtm in "
+            "MCLevyCopulaSimulation.__init__ - enters as data) and of couplinglevycopula.py _coupling_states_for_a_slice, CouplingLevyCopulaSimulation"
+            "{FixedTimes, WithJumpTimes, MaximumStep}.simulate_jumps_with_coupling / simulate_one_path_with_coupling / simulate_diffusion_with_coupling, "
+            "chain_over_intervals on (n_k, d) arrays, refine_up_to_maturity with both build_finer_grid copies on d-vector values; "
+            "LevyProcess.jump_times_from_nb_of_jumps (dt * uniforms, np.sort as insertion sort); tied by vm_compute correspondence for d = 2 and 3",
+            "in the n-d correspondence the product's TimeGrid, the loop over product intervals and jump_times_from_nb_of_jumps run unpatched "
+            "(np.random.random_sample is scripted only while that function runs); __coupling_state runs unpatched in half of the d = 2 coupled "
+            "cases (its result is recorded and fed to the model: C03 is about its law), else it is scripted; nb_jump_dt, the state sampler and "
+            "np.random.normal stay scripted",
+            "sequences: ONE process object, one pre_computation for 3-6 paths, all returned paths kept and examined only after the whole sequence "
+            "(direct, 1-d chain, coupled, copula and coupled copula d = 2, 3; fixed dates / jump times / max step): unchanged since returned, jump part "
+            "= running sums of the path's OWN recorded increments, value arrays share no memory with each other or with the simulators' arrays "
+            "(implementation-only oracle retained_paths_oracle)",
+            "not modelled: the guard `if slice_fine_states:` (one coupling state per fine state, so it is the emptiness of the coarse slice too); "
+            "__coupling_state itself, next_level, one_simulation_cost, MarkovChainLevyCopula drift / initialisation (C03, C11, C13)"]
 ASSUMPTIONS = ["floats are modelled by exact rationals: times and jump paths compared exactly (dyadic scripts); the diffusion path "
                "exactly when every sqrt(dt) is an exact double, with absolute tolerance 1e-12 otherwise",
                "C15_jump_times assumes consecutive product intervals and offsets strictly increasing inside (0, dt) "
                "(np.sort of uniforms; ties have probability 0)",
-               "C15_finer_grid assumes 0 < eps; the number of passes is bounded by max gap / eps"]
+               "C15_finer_grid assumes 0 < eps; the number of passes is bounded by max gap / eps",
+               "the C15_nd_* theorems assume well-formed inputs: every increment / coupling state is a d-vector (wf2 d), k < d, and for the "
+               "coupled path as many coarse as fine values (one coupling state per fine state)",
+               "C15_real_jump_times assumes pairwise distinct uniforms in the OPEN interval (0, 1): np.random.random_sample can return 0 "
+               "(probability 2^-53), which would put a jump on a product date"]
 THEOREM_NOTES = {
     "C15_fixed_dates": "about the repaired tree (fix commit for F-C15-3: np.cumsum of the interval totals); on the unrepaired tree the oracle reports F-C15-3",
     "C15_jump_times": "Levy and (repaired, F-C15-4) Markov-chain jump-time simulators: running sums for any number of product intervals; times (ivs) and "
@@ -41,6 +65,19 @@ THEOREM_NOTES = {
     "C15_finer_grid_aligned": "a parametricity statement about the pair-valued model (one gap list, values inserted at the same positions by "
                               "construction); that the two numpy inserts of helper.py really use the same positions is pinned by the correspondence",
     "C15_finer_grid": "Refines = inserted points carry the value of the point before them and take their gap out of the following original point",
+    "C15_nd_fixed_dates": "d-dimensional copula (project + hstack) and coupled copula (np.cumsum over all columns; fine and coarse are the same "
+                          "function of the grid values resp. the coupling states) fixed-date simulators, every component, any d; follows the tree with "
+                          "the repairs F-C15-2/6",
+    "C15_nd_jump_values": "chain_over_intervals on (n_k, d) arrays: running sums per component over any number of product intervals (F-C15-4/7 repaired)",
+    "C15_nd_coupled_path": "Leibniz equalities: the d-dimensional coupled path projects, component by component and for fine and coarse, onto the 1-d "
+                           "model jump_path of Model/Paths.v on the SAME times (alignment), for every cap and fuel - the 1-d theorems carry over; the "
+                           "premise length fine = length coarse holds because there is one coupling state per fine state",
+    "C15_nd_copula_path": "the same projection for MarkovChainLevyCopula.simulate_one_path",
+    "C15_nd_coupled_cap": "CouplingLevyCopulaSimulationMaximumStep (F-C15-8 repaired): every step <= eps incl. the step to the maturity; hypothesis "
+                          "on the gaps of the jump times + maturity only; Q arithmetic (float rounding: F-C15-5)",
+    "C15_nd_diffusion": "the diffusion matrix is an arbitrary d x d matrix (rows dm); each step uses its own column of normals",
+    "C15_real_jump_times": "discharges the offsets hypothesis of valid_ivs (C15_jump_times) from the primitive variates of the real "
+                           "jump_times_from_nb_of_jumps; np.sort modelled as insertion sort (pinned by the correspondence)",
     "C15_cap_whole_path": "about the repaired tree (F-C15-1: refine_up_to_maturity): every step <= eps incl. the last step and jump-free paths; "
                           "Q arithmetic (float rounding on non-dyadic inputs: F-C15-5)",
 }
@@ -988,6 +1025,472 @@ def copula_fixed_dates_replay(res):
                {"kind": "copula-project", "error": f"{type(e).__name__}: {e}"})
 
 
+# ----------------------------------------------------------------------------- sequences of paths from ONE process object, all kept
+def internal_arrays(objs):
+    """every ndarray reachable as an attribute (or one level inside a list / tuple / deque attribute) of the simulator objects"""
+    import numpy as np
+    out, seen = [], set()
+    for o in objs:
+        if o is None or id(o) in seen:
+            continue
+        seen.add(id(o))
+        for name, v in list(getattr(o, "__dict__", {}).items()):
+            if isinstance(v, np.ndarray):
+                out.append((f"{type(o).__name__}.{name}", v))
+            elif isinstance(v, (list, tuple, deque)):
+                out += [(f"{type(o).__name__}.{name}[{i}]", x) for i, x in enumerate(list(v)[:64]) if isinstance(x, np.ndarray)]
+    return out
+
+
+def retained_paths_oracle(res, rng, tier):
+    """A caller may KEEP the paths it is given.  ONE process object per case (direct, 1-d Markov chain, coupled 1-d, copula d = 2 / 3, coupled
+    copula d = 2 / 3; fixed dates / jump times / max step), ONE pre_computation for M paths, M calls of simulate_one_path[_with_coupling]; all M
+    returned StochasticJumpPath objects are kept and examined only AFTER the whole sequence (implementation-only oracle):
+      (a) times / diffusion / jump arrays of every kept path still equal the private copies taken when it was returned;
+      (b) the jump part of every kept path is built from ITS OWN recorded increments (fixed dates: running sums of the interval totals at every
+          date; otherwise: the value at the maturity is the sum of all its increments), fine and coarse, every component - exact;
+      (c) the value arrays of different kept paths do not share memory with each other, nor with any array held by the simulator objects.
+    Randomness is drawn on the fly from the run's seed and recorded per path (counts, offsets, state increments, coupling states)."""
+    import numpy as np
+    from stepmeasure import StepModel, make_grid, step_spec, build_copula_model
+    from rpylib.process.coupling.couplingmarkovchain import CouplingMarkovChain
+    from rpylib.process.coupling.couplinglevycopula import CouplingProcessLevyCopula
+    from rpylib.process.markovchain.markovchainlevycopula import MarkovChainLevyCopula
+    from rpylib.distribution.sampling import SamplingMethod
+    kinds = [("levy", 1), ("chain", 1), ("coupled", 1), ("copula", 2), ("copula", 3), ("coupled-copula", 2), ("coupled-copula", 3)]
+    modes = ["fixed", "jump", "cap"]
+    rounds = 2 if tier == "quick" else 10
+    for it in range(rounds * len(kinds) * len(modes)):
+        (kind, d), mode = kinds[it % len(kinds)], modes[(it // len(kinds)) % len(modes)]
+        M = rng.choice([3, 4, 6])
+        n_int = rng.choice([2, 3, 4])
+        dt = rng.choice([0.25, 1.0]) if mode == "fixed" else rng.choice([0.5, 1.0, 2.0])
+        T = dt * n_int
+        eps = rng.choice([dt / 4, dt / 2, dt, T / 2]) if mode == "cap" else None
+        coupled = kind.startswith("coupled")
+        ctx = {"kind": "retained-paths", "simulator": kind, "d": d, "mode": mode, "paths": M, "intervals": n_int, "dt": dt, "T": T, "eps": eps}
+        cur = [None]                                   # index of the path being simulated (None during pre_computation)
+        counts_rec, fine_rec, coarse_rec = [], {}, {}
+        kept = []
+        try:
+            prod = make_product(n_int + 1, T, stochastic=(mode != "fixed"))
+            if kind in ("levy", "chain"):
+                top, model = build_process(kind, rng)
+                top.initialisation(prod, max_step_epsilon=eps) if eps is not None else top.initialisation(prod)
+                fine = top
+            elif kind == "coupled":
+                top = CouplingMarkovChain(StepModel(the_measure(), a=0.25, sigma=0.5), SamplingMethod.BINARYSEARCHTREEADAPTED1D, make_grid(AXIS, 6, Fraction(1, 4)))
+            else:
+                spec = step_spec(the_measure(), a=0.25, sigma=0.5)
+                cop = build_copula_model([spec] * d, "independent")
+                grid = make_grid(AXIS, 6, Fraction(1, 4), dimension=d)
+                if kind == "copula":
+                    top = fine = MarkovChainLevyCopula(cop, grid, SamplingMethod.BINARYSEARCHTREEADAPTED)
+                    top.initialisation(prod, max_step_epsilon=eps) if eps is not None else top.initialisation(prod)
+                else:
+                    top = CouplingProcessLevyCopula(cop, grid, SamplingMethod.BINARYSEARCHTREEADAPTED)
+            if coupled:
+                with Patch(tags(rng, 900)):
+                    np.random.seed(rng.randrange(2 ** 31))
+                    top.initialisation(prod, max_step_epsilon=eps)
+                    top.next_level(mc_paths=1, path_managers=None, product=prod, max_step_epsilon=eps)
+                fine = top.fine_process
+            # --- randomness on the fly, recorded per path
+            fine.nb_jump_dt = lambda dt_: counts_rec.append(rng.choice([0, 1, 1, 2, 3])) or counts_rec[-1]
+            fine.jump_times_from_nb_of_jumps = lambda dt_, n: np.array(sorted(rng.sample(range(1, 64), int(n))), dtype=float) / 64 * dt_
+            if kind == "levy":
+                def jump_increment(n):
+                    vals = [rng.choice([1, 2, 4, 8, 16, 32]) / 64 * rng.choice([1, 1, -1]) for _ in range(int(n))]
+                    fine_rec.setdefault(cur[0], []).extend([v] for v in vals)
+                    return np.array(vals, dtype=float)
+                model.jump_increment = jump_increment
+            elif d == 1:
+                g1, o1 = fine.grid, fine.grid.origin_coordinate
+                nax = len(g1.axes[0])
+
+                def sampling1(size, g1=g1, o1=o1, nax=nax):
+                    ks = [rng.choice([k for k in range(-4, 5) if k and 0 <= o1.value + k < nax]) for _ in range(int(size))]
+                    fine_rec.setdefault(cur[0], []).extend([float(g1[o1 + k])] for k in ks)
+                    return ks
+                fine._path_simulation._sampling = sampling1
+            else:
+                axes = [[float(v) for v in ax] for ax in fine.grid.axes]
+                org = list(fine.grid.origin_coordinate.value)
+
+                def samplingd(size, axes=axes, org=org):
+                    incs = [tuple(rng.choice([k for k in range(-4, 5) if 0 <= org[c] + k < len(axes[c])]) for c in range(d)) for _ in range(int(size))]
+                    fine_rec.setdefault(cur[0], []).extend([axes[c][org[c] + inc[c]] for c in range(d)] for inc in incs)
+                    return [np.array(x) for x in incs]
+                fine.sampling.sample = samplingd
+            if kind == "coupled":
+                def cstate(inc):
+                    v = rng.choice([-2, -1, 0, 1, 2]) / 4
+                    coarse_rec.setdefault(cur[0], []).append([v])
+                    return v
+                top._path_coupling_simulation.coupling_state = cstate
+            elif kind == "coupled-copula":
+                def cstated(inc, axis_coordinates=None):
+                    v = [rng.choice([-2, -1, 0, 1, 2]) / 4 for _ in range(d)]
+                    coarse_rec.setdefault(cur[0], []).append(v)
+                    return np.array(v, dtype=float)
+                setattr(top._path_coupling_simulation, "_CouplingLevyCopulaSimulation__coupling_state", cstated)
+            with Patch(tags(rng, 4000)):
+                top.pre_computation(M, prod)
+                n_pre = len(counts_rec)
+                for i in range(M):
+                    cur[0] = i
+                    sp = top.simulate_one_path_with_coupling() if coupled else top.simulate_one_path()
+                    kept.append((sp, np.array(sp.jump_times[:], dtype=float).copy(), np.array(sp.diffusion_path, dtype=float).copy(),
+                                 np.array(sp.jump_path, dtype=float).copy()))
+        except Exception as e:  # noqa
+            report(res, f"sequence of {M} paths from one {kind} process raises {type(e).__name__} ({mode})", dict(ctx, error=f"{type(e).__name__}: {e}"))
+            continue
+        # ---------------- only now, after the whole sequence, the kept paths are looked at
+        if mode == "fixed":     # pre_computation draws the counts date by date for all paths
+            counts = [[counts_rec[k * M + i] for k in range(n_int)] for i in range(M)] if n_pre == M * n_int else None
+        else:
+            counts = [counts_rec[n_pre + i * n_int: n_pre + (i + 1) * n_int] for i in range(M)]
+        ctx["counts"] = counts
+        res.count(("retained", kind, d, mode, M, n_int, dt, eps, repr(counts), repr(fine_rec)), nontrivial=bool(fine_rec), kind=f"kept paths of one process ({kind} d={d} {mode})")
+        res.bump("retained_paths_per_sequence", M)
+        bad = None
+        for i, (sp, t0, d0, j0) in enumerate(kept):
+            t1, d1, j1 = np.array(sp.jump_times[:], dtype=float), np.asarray(sp.diffusion_path, dtype=float), np.asarray(sp.jump_path, dtype=float)
+            for nm, a, b in (("times", t0, t1), ("diffusion part", d0, d1), ("jump part", j0, j1)):
+                if a.shape != b.shape or not np.array_equal(a, b):
+                    bad = bad or (f"a path kept by the caller changed when later paths were simulated from the same process: the {nm} of path {i} of {M} is no longer "
+                                  f"what simulate_one_path returned", {"path": i, "component": nm, "returned": a.tolist(), "now": b.tolist()})
+            # (b) its own increments
+            own_f, own_c = fine_rec.get(i, []), coarse_rec.get(i, [])
+            for nm, own, arr in ([("jump part", own_f, j1)] if not coupled else [("fine jump part", own_f, j1[0]), ("coarse jump part", own_c, j1[1])]):
+                arr2 = np.atleast_2d(arr)                      # (d, n)
+                if counts is None or counts[i] is None or sum(counts[i]) != len(own):
+                    continue
+                for c in range(arr2.shape[0]):
+                    if mode == "fixed":
+                        want, acc, pos = [Fraction(0)], Fraction(0), 0
+                        for n in counts[i]:
+                            acc += sum((F(v[c]) for v in own[pos:pos + n]), Fraction(0))
+                            pos += n
+                            want.append(acc)
+                        got = [F(v) for v in arr2[c]]
+                    else:
+                        want, got = [sum((F(v[c]) for v in own), Fraction(0))], [F(arr2[c][-1])]
+                    res.bump("retained_own_increment_checks", f"{mode}: {'running sums at every date' if mode == 'fixed' else 'value at maturity'}")
+                    if got != want:
+                        bad = bad or (f"after the whole sequence the {nm} of kept path {i} of {M} is not the running sum of ITS OWN jump increments",
+                                      {"path": i, "component": c, "got": [float(x) for x in got], "own_running_sum": [float(x) for x in want]})
+        # (c) aliasing
+        objs = [top, getattr(top, "_path_simulation", None), fine, getattr(fine, "_path_simulation", None), getattr(top, "_path_coupling_simulation", None)]
+        internals = internal_arrays(objs)
+        vals = [(i, nm, arr) for i, (sp, *_c) in enumerate(kept) for nm, arr in (("diffusion_path", sp.diffusion_path), ("jump_path", sp.jump_path))
+                if isinstance(arr, np.ndarray)]
+        for a in range(len(vals)):
+            for b in range(a + 1, len(vals)):
+                if vals[a][0] != vals[b][0] and np.shares_memory(vals[a][2], vals[b][2]):
+                    bad = bad or (f"the {vals[a][1]} of path {vals[a][0]} and the {vals[b][1]} of path {vals[b][0]} returned by one process share memory",
+                                  {"paths": [vals[a][0], vals[b][0]]})
+            for nm, buf in internals:
+                if np.shares_memory(vals[a][2], buf):
+                    bad = bad or (f"the {vals[a][1]} returned for path {vals[a][0]} shares memory with the simulator's internal array {nm}", {"internal": nm})
+        res.bump("retained_alias_checks", f"{len(vals)} returned value arrays x {len(internals)} internal arrays")
+        if bad:
+            report(res, bad[0], dict(ctx, **bad[1]))
+
+
+# ----------------------------------------------------------------------------- d-dimensional Levy-copula simulators vs Model/PathsNd.v
+class UniformScript:
+    """np.random.random_sample is replaced ONLY while the real LevyProcess.jump_times_from_nb_of_jumps runs: the real function (scaling by dt,
+    np.sort) is driven with scripted dyadic uniforms"""
+
+    def __init__(self, proc, uniforms):
+        import numpy as np
+        self.real = type(proc).jump_times_from_nb_of_jumps
+        self.queue = deque(uniforms)
+        self.calls = []
+
+        def scripted(size=None):
+            us = self.queue.popleft()
+            if size is not None and int(size) != len(us):
+                raise AssertionError(f"jump_times_from_nb_of_jumps asked for {size} uniforms, the script has {len(us)}")
+            return np.array(us, dtype=float)
+
+        def wrapped(dt, n):
+            orig = np.random.random_sample
+            np.random.random_sample = scripted
+            try:
+                out = self.real(dt, n)
+            finally:
+                np.random.random_sample = orig
+            self.calls.append((float(dt), int(n)))
+            return out
+        proc.jump_times_from_nb_of_jumps = wrapped
+
+
+def nd_counts(rng, n_int, it):
+    """jump counts per product interval: NON-ragged multi-interval scripts ([2,2], [1,1,1], [3,3] ...), ragged ones, empty intervals"""
+    style = it % 4
+    if style == 0 and n_int >= 2:
+        return [rng.choice([1, 2, 3])] * n_int                      # non-ragged
+    if style == 1:
+        return [rng.choice([0, 1, 2, 3]) for _ in range(n_int)]     # ragged, empties allowed
+    if style == 2 and n_int >= 2:
+        c = [rng.choice([1, 2, 3]) for _ in range(n_int)]
+        c[rng.randrange(n_int)] = 0                                  # an empty interval among non-empty ones
+        return c
+    return [rng.choice([0, 0, 1, 2, 4]) for _ in range(n_int)]
+
+
+def nd_uniforms(rng, counts):
+    return [[k / 64 for k in rng.sample(range(1, 64), n)] for n in counts]       # pairwise distinct dyadics in (0, 1), unsorted
+
+
+def nd_columns(arr):
+    """(d, n) array -> list of n columns (d floats each)"""
+    return [[float(v) for v in col] for col in arr.T]
+
+
+def nd_diffusion_expect(dm, sq, wcols):
+    """exact rational value of np.cumsum(sqrt_dts * (dm @ W), axis=1) with the zero column in front"""
+    d = len(dm)
+    acc, out = [Fraction(0)] * d, [[Fraction(0)] * d]
+    for s, w in zip(sq, wcols):
+        step = [F(s) * sum((F(dm[k][i]) * F(w[i]) for i in range(d)), Fraction(0)) for k in range(d)]
+        acc = [a + b for a, b in zip(acc, step)]
+        out.append(list(acc))
+    return out
+
+
+def vl(cols):
+    return lst([lst([qlit(v) for v in c]) for c in cols])
+
+
+def nd_oracle(res, what, d, times, dif, jmp, T, jt, sizes, eps, mode, ctx, diff_expect):
+    """statement of the property on one returned (d, n) component array (implementation only): every component k is checked by check_path"""
+    ok = True
+    for k in range(d):
+        flat = [F(v[k]) for r in sizes for v in r]
+        c2 = dict(ctx, component=f"{what}[{k}]")
+        d_, j_ = [float(v) for v in dif[k]], [float(v) for v in jmp[k]]
+        if mode == "fixed":
+            run, acc = [Fraction(0)], Fraction(0)
+            for r in sizes:
+                acc += sum((F(v[k]) for v in r), Fraction(0))
+                run.append(acc)
+            c2["finding_hint"] = "fixed"
+            ok &= check_path(res, f"{what} (fixed dates, d={d})", times, d_, j_, T, None, run, None, None, c2)
+        else:
+            cum, acc = [], Fraction(0)
+            for v in flat:
+                acc += v
+                cum.append(acc)
+            run = [Fraction(0)] + refined_expectation(jt, cum, times[1:-1]) + [cum[-1] if cum else Fraction(0)]
+            ok &= check_path(res, f"{what} ({'jump times' if eps is None else 'jump times, max step'}, d={d})", times, d_, j_, T, jt, run, None, eps, c2)
+        want = [col[k] for col in diff_expect]
+        if len(want) != len(d_) or any(abs(F(a) - b) > TOL for a, b in zip(d_, want)):
+            report(res, f"{what}: the diffusion part is not the running sum of sqrt(dt) * (diffusion matrix @ normals of the step)", dict(c2, diffusion=d_))
+            ok = False
+    return ok
+
+
+def nd_cases(res, rng, tier):
+    """MarkovChainLevyCopula.simulate_one_path and CouplingProcessLevyCopula.simulate_one_path_with_coupling, d = 2 and 3, against the
+    d-dimensional model (Model/PathsNd.v): whole (d, n) / (2, d, n) arrays incl. the matrix diffusion.  REAL: TimeGrid of the product, the
+    loop over product intervals, jump_times_from_nb_of_jumps (scripted uniforms, real scaling and np.sort), helper_simulate_levy_copula_
+    markov_chain, _coupling_states_for_a_slice, chain_over_intervals, refine_up_to_maturity, both build_finer_grid copies, and for half of
+    the d = 2 coupled cases the REAL __coupling_state (recorded on its way out; its uniform comes from numpy seeded from the run's seed; fine
+    states on one axis inside the support of the measure).  Scripted: nb_jump_dt (counts), the state sampler (increments), np.random.normal
+    (tagged dyadics), otherwise the coupling states."""
+    import numpy as np
+    from stepmeasure import make_grid, step_spec, build_copula_model
+    from rpylib.process.markovchain.markovchainlevycopula import MarkovChainLevyCopula
+    from rpylib.process.coupling.couplinglevycopula import CouplingProcessLevyCopula
+    from rpylib.distribution.sampling import SamplingMethod
+    kf, kj, cf, cj = [], [], [], []
+    n_iter = 72 if tier == "quick" else 480
+    for it in range(n_iter):
+        coupled = it % 2 == 1
+        d = 2 if (it // 2) % 3 else 3
+        mode = ["fixed", "jump", "cap"][(it // 6) % 3] if it % 5 else "cap"
+        n_int = rng.choice([1, 2, 2, 3, 3, 4])
+        dt = rng.choice([0.25, 1.0, 4.0]) if mode == "fixed" else rng.choice([0.5, 1.0, 2.0])
+        T = dt * n_int
+        eps = rng.choice([T / 8, dt / 4, 3 * dt / 16, T, dt / 2, dt, 1.5 * dt]) if mode == "cap" else None
+        counts = nd_counts(rng, n_int, it // 2)
+        uniforms = nd_uniforms(rng, counts)
+        real_cs = coupled and d == 2 and (it // 12) % 2 == 0
+        what = "CouplingProcessLevyCopula" if coupled else "MarkovChainLevyCopula"
+        ctx = {"kind": "nd-coupled-copula" if coupled else "nd-copula", "d": d, "mode": mode, "intervals": n_int, "dt": dt, "T": T, "eps": eps,
+               "counts": counts, "uniforms": uniforms, "real_coupling_state": real_cs}
+        try:
+            spec = step_spec(the_measure(), a=0.25, sigma=0.5)
+            cop = build_copula_model([spec] * d, "independent")
+            grid = make_grid(AXIS, 6, Fraction(1, 4), dimension=d)
+            prod = make_product(n_int + 1, T, stochastic=(mode != "fixed"))
+            dates = [float(t) for t in prod.times_grid()[:]]
+            recorded = []
+            if coupled:
+                top = CouplingProcessLevyCopula(cop, grid, SamplingMethod.BINARYSEARCHTREEADAPTED)
+                with Patch(tags(rng, 600)):
+                    np.random.seed(rng.randrange(2 ** 31))
+                    top.initialisation(prod, max_step_epsilon=eps)
+                    top.next_level(mc_paths=1, path_managers=None, product=prod, max_step_epsilon=eps)
+                fine = top.fine_process
+            else:
+                top = fine = MarkovChainLevyCopula(cop, grid, SamplingMethod.BINARYSEARCHTREEADAPTED)
+                top.initialisation(prod, max_step_epsilon=eps) if eps is not None else top.initialisation(prod)
+            axes = [[float(v) for v in ax] for ax in top.grid.axes]
+            org = list(top.grid.origin_coordinate.value)
+            if real_cs:
+                # the REAL __coupling_state divides by the Levy mass around the fine state: the scripted fine states must lie in the support of the
+                # measure - for the independent copula on ONE axis, at |x| >= 3/8 (density 0 on (-1/4, 1/4)); odd and even increments
+                def on_axis():
+                    c, k = rng.randrange(d), rng.choice([-8, -7, -6, -5, -4, -3, 3, 4, 5, 6, 7, 8])
+                    return tuple(k if j == c else 0 for j in range(d))
+                raw = [[on_axis() for _ in range(n)] for n in counts]
+            else:
+                raw = [[tuple(rng.choice([k for k in range(-4, 5) if 0 <= org[c] + k < len(axes[c])]) for c in range(d)) for _ in range(n)] for n in counts]
+            fsizes = [[[axes[c][org[c] + inc[c]] for c in range(d)] for inc in r] for r in raw]       # per interval, per jump: d-vector
+            ctx["state_increments"] = raw
+            rq = deque(raw)
+            fine.sampling.sample = lambda size, rq=rq: [np.array(x) for x in rq.popleft()]
+            cqc = deque(counts)
+            fine.nb_jump_dt = lambda dt_, cqc=cqc: cqc.popleft()
+            us = UniformScript(fine, uniforms)
+            csizes = None
+            if coupled:
+                sim = top._path_coupling_simulation
+                name = "_CouplingLevyCopulaSimulation__coupling_state"
+                if real_cs:
+                    real = getattr(sim, name)
+                    depth = [0]
+
+                    def recording(inc, axis_coordinates=None, real=real, depth=depth):
+                        depth[0] += 1
+                        try:
+                            out = real(inc) if axis_coordinates is None else real(inc, axis_coordinates)
+                        finally:
+                            depth[0] -= 1
+                        if depth[0] == 0:
+                            recorded.append([float(v) for v in np.asarray(out, dtype=float)])
+                        return out
+                    setattr(sim, name, recording)
+                else:
+                    craw = [[[rng.choice([-2, -1, 0, 1, 2]) / 4 for _ in range(d)] for _ in r] for r in raw]
+                    cq = deque(np.array(c, dtype=float) for r in craw for c in r)
+                    setattr(sim, name, lambda inc, axis_coordinates=None, cq=cq: cq.popleft())
+                    csizes = craw
+            np.random.seed(rng.randrange(2 ** 31))
+            with Patch(tags(rng, 900)) as pt:
+                top.pre_computation(1, prod)
+                sp = top.simulate_one_path_with_coupling() if coupled else top.simulate_one_path()
+                used = list(pt.used_normals)
+            if real_cs:
+                if len(recorded) != sum(counts):
+                    report(res, "coupled copula: not exactly one coupling state per fine jump", dict(ctx, recorded=len(recorded)))
+                    continue
+                flat, csizes = deque(recorded), []
+                for n in counts:
+                    csizes.append([flat.popleft() for _ in range(n)])
+            if mode != "fixed" and us.calls != [(dt_, n) for dt_, n in zip(np.diff(dates).tolist(), counts)]:
+                report(res, f"{what}: jump_times_from_nb_of_jumps is not called once per product interval with (interval length, number of jumps)",
+                       dict(ctx, calls=us.calls))
+                continue
+        except Exception as e:  # noqa
+            report(res, f"{what}.{'simulate_one_path_with_coupling' if coupled else 'simulate_one_path'} raises {type(e).__name__} (d={d}, {mode}, {n_int} interval(s))",
+                   dict(ctx, error=f"{type(e).__name__}: {e}"))
+            continue
+        ctx["coarse_values"] = csizes
+        times = [float(t) for t in sp.jump_times[:]]
+        dif, jmp = np.asarray(sp.diffusion_path, dtype=float), np.asarray(sp.jump_path, dtype=float)
+        shape = (2, d, len(times)) if coupled else (d, len(times))
+        if dif.shape != shape or jmp.shape != shape:
+            report(res, f"{what}: the components are not aligned on the returned times", dict(ctx, times=times, shapes=[list(dif.shape), list(jmp.shape)]))
+            continue
+        if dates != [k * dt for k in range(n_int + 1)]:
+            report(res, "TimeGrid of the product is not the equally spaced grid of its dates", dict(ctx, dates=dates))
+        sq = [float(v) for v in np.sqrt(np.diff(times))]
+        n = len(sq)
+        wcols = [[used[k * n + j] for k in range(d)] for j in range(n)]
+        jt = [float(np.float64(dates[k]) + np.float64(o)) for k, u_ in enumerate(uniforms) for o in sorted(np.float64(dt) * np.float64(u) for u in u_)]
+        if coupled:
+            dm_f = [[float(v) for v in row] for row in np.asarray(top._diffusion_matrix_h, dtype=float)]
+            dm_c = [[float(v) for v in row] for row in np.asarray(top._diffusion_matrix_2h, dtype=float)]
+            parts = [("fine", 0, fsizes, dm_f), ("coarse", 1, csizes, dm_c)]
+        else:
+            dm = [[float(v) for v in row] for row in np.asarray(top._path_simulation.diffusion_matrix, dtype=float)]
+            parts = [("path", None, fsizes, dm)]
+        exact = True
+        for name_, idx, sizes, dm_ in parts:
+            de = nd_diffusion_expect(dm_, sq, wcols)
+            a_d, a_j = (dif[idx], jmp[idx]) if coupled else (dif, jmp)
+            nd_oracle(res, f"{what} {name_}", d, times, a_d, a_j, T, jt, sizes, eps, mode, ctx, de)
+            exact &= [[F(v) for v in c] for c in nd_columns(a_d)] == de
+        exact_sq = all(F(s_) ** 2 == F(b) - F(a) for s_, a, b in zip(sq, times, times[1:]))
+        tol = Fraction(0) if exact else TOL
+        res.count(("nd", coupled, d, mode, n_int, dt, eps, repr(counts), repr(uniforms), repr(raw), repr(csizes)), nontrivial=sum(counts) >= 1,
+                  kind=f"{'coupled ' if coupled else ''}copula d={d} {mode} (n-d model)")
+        res.bump("nd_counts_shape", "no jump" if not sum(counts) else ("non-ragged multi-interval" if n_int >= 2 and len(set(counts)) == 1 else
+                                                                       ("single interval" if n_int == 1 else "ragged multi-interval")))
+        res.bump("nd_dimension", d)
+        res.bump("nd_diffusion_compare", "exact" if exact else "tolerance 1e-12")
+        if real_cs:
+            res.bump("nd_coupling_state", "real (recorded)")
+        elif coupled:
+            res.bump("nd_coupling_state", "scripted")
+        ql = lambda xs: lst([qlit(v) for v in xs])    # noqa
+        cap = "None" if eps is None else f"(Some {qlit(eps)})"
+        ivl = lambda sizes: lst([vl(r) for r in sizes])    # noqa
+        if not coupled:
+            if mode == "fixed":
+                kf.append(f"({d}%nat, {vl(dm)}, {ql(sq)}, {vl(wcols)}, {ivl(fsizes)}, {qlit(tol)}, {vl(nd_columns(dif))}, {vl(nd_columns(jmp))})")
+            else:
+                kj.append(f"({d}%nat, {cap}, {qlit(T)}, {ql(dates)}, {lst([ql(u) for u in uniforms])}, {ivl(fsizes)}, {vl(dm)}, {ql(sq)}, {vl(wcols)}, {qlit(tol)}, "
+                          f"{ql(times)}, {vl(nd_columns(dif))}, {vl(nd_columns(jmp))})")
+        else:
+            outs = f"{vl(nd_columns(dif[0]))}, {vl(nd_columns(jmp[0]))}, {vl(nd_columns(dif[1]))}, {vl(nd_columns(jmp[1]))}"
+            if mode == "fixed":
+                cf.append(f"({d}%nat, {vl(dm_f)}, {vl(dm_c)}, {ql(sq)}, {vl(wcols)}, {ivl(fsizes)}, {ivl(csizes)}, {qlit(tol)}, {outs})")
+            else:
+                cj.append(f"({d}%nat, {cap}, {qlit(T)}, {ql(dates)}, {lst([ql(u) for u in uniforms])}, {ivl(fsizes)}, {ivl(csizes)}, {vl(dm_f)}, {vl(dm_c)}, "
+                          f"{ql(sq)}, {vl(wcols)}, {qlit(tol)}, {ql(times)}, {outs})")
+    return kf, kj, cf, cj
+
+
+ND_HEADER = """From Coq Require Import ZArith QArith Qabs List Bool.
+From RV Require Import Base.QB Base.Corr Model.Paths Model.PathsNd.
+Import ListNotations.
+Open Scope Q_scope.
+Definition qeq (a b : list Q) : bool := qlist_eqb a b.
+Definition veq (a b : list vec) : bool := list_eqb qlist_eqb a b.
+Definition LV := list vec.
+Definition ndk_fixed_check (c : nat * LV * list Q * LV * list LV * Q * LV * LV) : bool :=
+  match c with (d, dm, sq, ws, ivs, tol, ed, ej) =>
+    vlist_tol_eqb tol (nd_diffusion_path d dm sq ws) ed && veq (nd_fixed_jump_path d ivs) ej end.
+Definition ndk_jump_check (c : nat * option Q * Q * list Q * list (list Q) * list LV * LV * list Q * LV * Q * list Q * LV * LV) : bool :=
+  match c with (d, cap, T, dates, us, incs, dm, sq, ws, tol, et, ed, ej) =>
+    let p := nd_jump_path d cap 200 T (real_jump_times dates us) incs in
+    qeq (fst p) et && veq (snd p) ej && vlist_tol_eqb tol (nd_diffusion_path d dm sq ws) ed end.
+Definition ndc_fixed_check (c : nat * LV * LV * list Q * LV * list LV * list LV * Q * LV * LV * LV * LV) : bool :=
+  match c with (d, dmf, dmc, sq, ws, fi, ci, tol, fd, fj, cd, cj) =>
+    let p := nd_coupled_fixed_jump_paths d fi ci in
+    vlist_tol_eqb tol (nd_diffusion_path d dmf sq ws) fd && vlist_tol_eqb tol (nd_diffusion_path d dmc sq ws) cd
+    && veq (fst p) fj && veq (snd p) cj end.
+Definition ndc_jump_check (c : nat * option Q * Q * list Q * list (list Q) * list LV * list LV * LV * LV * list Q * LV * Q * list Q * LV * LV * LV * LV) : bool :=
+  match c with (d, cap, T, dates, us, fi, ci, dmf, dmc, sq, ws, tol, et, fd, fj, cd, cj) =>
+    let '(t, f, co) := nd_coupled_jump_path d cap 200 T (real_jump_times dates us) fi ci in
+    qeq t et && veq f fj && veq co cj
+    && vlist_tol_eqb tol (nd_diffusion_path d dmf sq ws) fd && vlist_tol_eqb tol (nd_diffusion_path d dmc sq ws) cd end.
+"""
+
+ND_TYPES = {
+    "ndk_fixed": "nat * LV * list Q * LV * list LV * Q * LV * LV",
+    "ndk_jump": "nat * option Q * Q * list Q * list (list Q) * list LV * LV * list Q * LV * Q * list Q * LV * LV",
+    "ndc_fixed": "nat * LV * LV * list Q * LV * list LV * list LV * Q * LV * LV * LV * LV",
+    "ndc_jump": "nat * option Q * Q * list Q * list (list Q) * list LV * list LV * LV * LV * list Q * LV * Q * list Q * LV * LV * LV * LV",
+}
+
+
 HEADER = """From Coq Require Import ZArith QArith Qabs List Bool.
 From RV Require Import Base.QB Base.Corr Model.Paths.
 Import ListNotations.
@@ -1036,8 +1539,10 @@ def correspond(res):
     ccf, ccj = coupled_copula_cases(res, rng, tier)
     cfixed, cjump = cfixed + ccf, cjump + ccj
     copula_fixed_dates_replay(res)
+    nd = dict(zip(("ndk_fixed", "ndk_jump", "ndc_fixed", "ndc_jump"), nd_cases(res, random.Random(res.seed + 5), tier)))
     real_times_oracle(res, rng, tier)
     precomputation_sequence_oracle(res, rng, tier)
+    retained_paths_oracle(res, random.Random(res.seed + 7), tier)
     groups = [
         ("finer1", "Q * Q * list Q * list Q * list Q * list Q", "finer1_check", f1),
         ("finerd", "nat * Q * Q * list Q * list (list Q) * list Q * list (list Q)", "finerd_check", fd),
@@ -1048,6 +1553,7 @@ def correspond(res):
         ("cjump", "option Q * Q * list Q * list (list Q) * list (list Q) * list (list Q) * list Q * Q * Q * list Q * Q * list Q * list Q * list Q * list Q * list Q",
          "cjump_check", cjump),
     ]
+    groups = [g + (HEADER,) for g in groups] + [(name, ND_TYPES[name], name + "_check", cases, ND_HEADER) for name, cases in nd.items()]
     res.case_lemmas += len(groups)
     empty = [g[0] for g in groups if not g[3]]
     if empty:
@@ -1056,10 +1562,10 @@ def correspond(res):
     from concurrent.futures import ThreadPoolExecutor
 
     def work(g):
-        return g, coq_bad_indices(PROP, f"cases_{g[0]}", HEADER, [g], timeout=600)[g[0]]
+        return g, coq_bad_indices(PROP, f"cases_{g[0]}", g[4], [g[:4]], timeout=600)[g[0]]
 
-    with ThreadPoolExecutor(max_workers=7) as ex:
-        for (g, ty, chk, cs), bad in ex.map(work, groups):
+    with ThreadPoolExecutor(max_workers=8) as ex:
+        for (g, ty, chk, cs, _hdr), bad in ex.map(work, groups):
             if bad:
                 res.broke(f"correspondence {g}", f"model and implementation differ on {len(bad)} of {len(cs)} case(s), first: {cs[bad[0]][:2500]}")
             else:
@@ -1096,20 +1602,27 @@ def replay(path):
     return 1
 
 
-LEVEL_TEXT = ("Proof: 6 Coq theorems (closed under the global context) about list models of the path builders: with fixed product dates the "
+LEVEL_TEXT = ("Proof: 13 Coq theorems (closed under the global context) about list models of the path builders: with fixed product dates the "
               "jump part at each date is the sum of all increments of the intervals so far, each date-to-date increment uses that "
               "interval's variates only, the diffusion part is the running sum of the scaled normals (any number of dates/jumps); with "
               "jump times the times start at 0, end at the maturity and are strictly increasing, values are running sums - also for the "
               "Markov-chain simulators over any number of product dates - and the last value is repeated at maturity; build_finer_grid "
               "(both copies, any value type) terminates within max gap/eps passes, leaves every gap <= eps, keeps the original points in "
-              "order, inserts only points repeating the preceding value, refines fine and coarse at the same positions; and the path the "
-              "max-step simulators return has EVERY step <= eps, the step to the maturity and jump-free paths included. Tied to the source "
-              "by driving real LevyProcess / MarkovChainProcess / MarkovChainLevyCopula / CouplingMarkovChain objects through simulate_one_path "
-              "with scripted variates against the model (exact on dyadic scripts), 1-12 product dates. The model follows the tree with the "
-              "fixes for F-C15-1/2/3/4. Partial: the coupled Levy-copula simulators are covered through build_finer_grid only; float rounding "
-              "of build_finer_grid on non-dyadic inputs is the known finding F-C15-5.")
+              "order, inserts only points repeating the preceding value, refines fine and coarse at the same positions; the path the "
+              "max-step simulators return has EVERY step <= eps, the step to the maturity and jump-free paths included. Wave 5: a d-dimensional "
+              "model (Model/PathsNd.v) of the Levy-copula simulators of markovchainlevycopula.py and couplinglevycopula.py (fixed dates, jump "
+              "times, max step; fine and coarse; matrix diffusion): for every d and component k < d the fixed-date values are running sums of "
+              "the interval totals, the jump-time values running sums over any number of product intervals, the whole copula / coupled copula "
+              "path projects component by component onto the 1-d model on the same times with equally many fine and coarse columns, the coupled "
+              "max-step path has every step <= eps, the diffusion is the running sum of sqrt(dt) (matrix row . normals of the step); and the real "
+              "jump_times_from_nb_of_jumps turns distinct uniforms in (0,1) into strictly increasing offsets inside the interval. Tied to the source "
+              "by driving real LevyProcess / MarkovChainProcess / MarkovChainLevyCopula / CouplingMarkovChain / CouplingProcessLevyCopula objects "
+              "(d = 1, 2, 3) through simulate_one_path / simulate_one_path_with_coupling with scripted variates against the models (exact on dyadic "
+              "scripts), 1-12 product dates, non-ragged and ragged jump counts, real TimeGrid and jump_times_from_nb_of_jumps. The model follows "
+              "/repo HEAD (fixes F-C15-1..4, 6..8). Float rounding of build_finer_grid on non-dyadic inputs is the known finding F-C15-5.")
 LEVEL_NOTE = ("Trusted: Coq kernel + vm_compute; floats as rationals (dyadic scripts exact; sqrt of the steps fed as data, diffusion within 1e-12 "
               "when a sqrt is inexact); numpy insert/cumsum/diff/flatnonzero modelled by list functions and pinned by the correspondence; the "
               "randomness sources are scripted at nb_jump_dt / jump_times_from_nb_of_jumps / the state sampler / np.random.normal / "
-              "coupling_state. F-C15-5 (float rounding in build_finer_grid on non-dyadic inputs) is accepted only through matches_known.")
-TECHNIQUE = "Coq proof (induction over interval/gap lists, an inductive refinement relation for build_finer_grid) on hand models + vm_compute correspondence through simulate_one_path with scripted variates"
+              "coupling_state (the n-d cases run jump_times_from_nb_of_jumps, TimeGrid and partly __coupling_state unpatched); the diffusion matrix "
+              "(scipy sqrtm) is data. F-C15-5 (float rounding in build_finer_grid on non-dyadic inputs) is accepted only through matches_known.")
+TECHNIQUE = "Coq proof (induction over interval/gap lists, an inductive refinement relation for build_finer_grid, projection of the d-dimensional model onto its components) on hand models + vm_compute correspondence through simulate_one_path with scripted variates"
